@@ -352,21 +352,21 @@ pub fn check(ctx: &Ctx) -> Check {
         Box::new(RandomPart {
             name: "conservation-and-strict",
             rule: "call sets x maps x {plain (+ the same run with --strict), projection at --precision 12} x containers, single-record call sets forced as a class: Y of `Skipped X/Y` == records, X == model's skipped count, mass + X == records (exact without projection, cells*0.5e-12 + 1e-9 N with); --strict fails naming the FIRST record that would be skipped with empty stdout, or is byte-identical to the non-strict run; non-trivial = X >= 1 and mass >= 1",
-            cases: ctx.tier.pick(4000, 40_000),
+            cases: ctx.tier.pick(4000, 120_000),
             strategy: Box::new(|| strategy().boxed()),
             eval: Box::new(eval),
         }),
         Box::new(RandomPart {
             name: "conservation-large-cohort",
             rule: "the conservation invariant with projection on cohorts of 86..700 samples (the ln-gamma path of the hypergeometric weights, beyond the 170! table and beyond f64 binomials): mass + skipped == records within cells*0.5e-12 + 1e-9 N at --precision 12",
-            cases: ctx.tier.pick(128, 1200),
+            cases: ctx.tier.pick(128, 3000),
             strategy: Box::new(|| crate::props::c02::large_strategy().boxed()),
             eval: Box::new(eval_large),
         }),
         Box::new(RandomPart {
             name: "fault-sweep",
             rule: "a fault (non-diploid genotype in a selected sample in any container; VCF line with truncated columns, non-numeric POS, GT `0/x`; a raw or BGZF-compressed BCF stream ending inside the record; VCF text ending inside the record line) placed at EVERY record position 0..=N of generated call sets with skippable and countable records before and after, with and without --strict: exit != 0, diagnostic, empty stdout; ploidy faults must name contig and position of the first failing record (an earlier skipped record under --strict); non-trivial = a fault at a position > 0",
-            cases: ctx.tier.pick(800, 8000),
+            cases: ctx.tier.pick(800, 20_000),
             strategy: Box::new(|| sweep_strategy().boxed()),
             eval: Box::new(eval_sweep),
         }),
